@@ -18,16 +18,54 @@
                                     file 2 + cgio_copy_node)      copyfile2   (cgio_copy_file)     close2
      version   flush   compress   close
      cgopen <w|m> <adf|hdf5>   base <name>   zone <name> <n>   coord <name> <seed>   sol <name>   field <name> <seed>
-     desc <name> <text>   cgclose      (mid-level sessions, as in c14_h.c) */
+     desc <name> <text>   cgclose      (mid-level sessions, as in c14_h.c)
+     adfnew <format>                an empty ADF database in number format IEEE_BIG_32|IEEE_BIG_64|IEEE_LITTLE_32|IEEE_LITTLE_64|
+                                    CRAY|NATIVE (ADF_Database_Open NEW + close): a file as it comes from another machine
+     cgopen r adf                   read-only      cgsel <B> <Z> <next element number>   (used by the operations below; after cgopen m)
+     uzone <name> <nvert> <ncell>   unstructured zone
+     ngon <name> <ne> <npe> <seed>  cg_poly_section_write NGON_n, ne faces of npe nodes, appended after the last section
+     ngon4 <name> <ne> <npe> <seed> the same stored as 32-bit integers (cg_section_general_write + initialize + general_write)
+     mixed <name> <ne> <seed>       cg_poly_section_write MIXED, alternating TRI_3 / QUAD_4
+     elems <name> <ne> <seed>       cg_section_write TETRA_4
+     secpart <name> <ne>            cg_section_partial_write TETRA_4 (section initialised with zeros)
+     polypart <S> <first> <last> <npe> <seed>   cg_poly_elements_partial_write on an NGON_n section (faces of npe nodes)
+     mixpart <S> <first> <last> <3|4> <seed>    cg_poly_elements_partial_write on a MIXED section (all TRI_3 or all QUAD_4)
+     elempart <S> <first> <last> <seed>         cg_elements_partial_write (TETRA_4)
+     parentpart <S> <first> <last> <seed>       cg_parent_data_partial_write
+     coordpart <name> <lo> <hi> <seed>          cg_coord_partial_write on i-planes lo..hi of the structured zone
+     fieldpart <name> <lo> <hi> <seed>          cg_field_partial_write
+     bbox <seed>                    cg_grid_bounding_box_write
+     getcoord <name>   getfield <name>   getelems <S>   (whole-array reads; status only)
+     saveas <file> <adf|hdf5>       cg_save_as        cgdeldesc <name>   (cg_delete_node of a child of the base) */
 #include <stdio.h>
 #include <stdlib.h>
 #include <string.h>
 #include <unistd.h>
 #include "cgnslib.h"
 #include "cgns_io.h"
+#include "adf/ADF.h"
 #include "c15_dump.c"
 
 static int cg = 0, cg2 = 0, fn = -1, B = 1, Z = 1, S = 1, zn = 2;
+static cgsize_t next_elem = 1, nvert = 1000;
+
+static CGNS_ENUMT(DataType_t) cgi_datatype_of_size(void) { return sizeof(cgsize_t) == 8 ? CGNS_ENUMV(LongInteger) : CGNS_ENUMV(Integer); }
+static cgsize_t node_of(unsigned long long seed, cgsize_t e, int j) { return (cgsize_t)((seed * 17 + (unsigned long long)e * 7 + j * 13) % (unsigned long long)nvert) + 1; }
+
+/* connectivity (+ offsets) of faces first..last with npe nodes each; mixed: element type token in front */
+static void poly(cgsize_t first, cgsize_t last, int npe, int mixed, unsigned long long seed, cgsize_t **conn, cgsize_t **offs)
+{
+    cgsize_t ne = last - first + 1, e, k = 0; int j;
+    *conn = (cgsize_t *)malloc(sizeof(cgsize_t) * (size_t)(ne * ((npe > 4 ? npe : 4) + 1) + 1));
+    *offs = (cgsize_t *)malloc(sizeof(cgsize_t) * (size_t)(ne + 1));
+    (*offs)[0] = 0;
+    for (e = first; e <= last; e++) {
+        int np = npe ? npe : ((e & 1) ? 3 : 4);
+        if (mixed) (*conn)[k++] = np == 3 ? CGNS_ENUMV(TRI_3) : CGNS_ENUMV(QUAD_4);
+        for (j = 0; j < np; j++) (*conn)[k++] = node_of(seed, e, j);
+        (*offs)[e - first + 1] = k;
+    }
+}
 static double root, root2;
 
 static void *gen(const char *type, long n, unsigned long long seed, size_t *nbytes)
@@ -67,7 +105,7 @@ static int parent_of(const char *path, double *pid)
 int main(int argc, char **argv)
 {
     static char line[4096], a[1024], b[1024], c[1024], d[1024];
-    long n, n2; unsigned long long seed;
+    long n, n2, n3; unsigned long long seed;
     if (argc >= 3 && !strcmp(argv[1], "dump")) {
         int i;
         for (i = 2; i < argc; i++) { char tag[16]; sprintf(tag, "%d", i - 2); dump_file(argv[i], tag); }
@@ -186,7 +224,7 @@ int main(int argc, char **argv)
         else if (!strncmp(line, "close", 5)) ier = cgio_close_file(cg);
         else if (sscanf(line, "cgopen %1023s %1023s", a, b) == 2) {
             ier = cg_set_file_type(!strcmp(b, "hdf5") ? CG_FILE_HDF5 : CG_FILE_ADF);
-            if (!ier) ier = cg_open(argv[2], a[0] == 'w' ? CG_MODE_WRITE : CG_MODE_MODIFY, &fn);
+            if (!ier) ier = cg_open(argv[2], a[0] == 'w' ? CG_MODE_WRITE : a[0] == 'r' ? CG_MODE_READ : CG_MODE_MODIFY, &fn);
         } else if (sscanf(line, "base %1023s", a) == 1) ier = cg_base_write(fn, a, 3, 3, &B);
         else if (sscanf(line, "zone %1023s %ld", a, &n) == 2) {
             cgsize_t size[9] = {0};
@@ -204,6 +242,91 @@ int main(int argc, char **argv)
             ier = cg_goto(fn, B, "end");
             if (!ier) ier = cg_descriptor_write(a, b);
         } else if (!strncmp(line, "cgclose", 7)) ier = cg_close(fn);
+        else if (sscanf(line, "zn %ld", &n) == 1) { zn = (int)n; ier = 0; }      /* size of the existing structured zone; no library call */
+        else if (sscanf(line, "cgdeldesc %1023s", a) == 1) {
+            ier = cg_goto(fn, B, "end");
+            if (!ier) ier = cg_delete_node(a);
+        } else if (sscanf(line, "adfnew %1023s", a) == 1) {
+            double rid; int err = -1;
+            unlink(argv[2]);
+            ADF_Database_Open(argv[2], "NEW", a, &rid, &err);
+            ier = err > 0 ? err : 0;
+            if (!ier) { ADF_Database_Close(rid, &err); ier = err > 0 ? err : 0; }
+        } else if (sscanf(line, "cgsel %ld %ld %ld", &n, &n2, &n3) == 3) { B = (int)n; Z = (int)n2; next_elem = n3; ier = 0; }
+        else if (sscanf(line, "uzone %1023s %ld %ld", a, &n, &n2) == 3) {
+            cgsize_t size[3]; size[0] = n; size[1] = n2; size[2] = 0; nvert = n; next_elem = 1;
+            ier = cg_zone_write(fn, B, a, size, CGNS_ENUMV(Unstructured), &Z);
+        } else if (sscanf(line, "ngon %1023s %ld %ld %llu", a, &n, &n2, &seed) == 4 || sscanf(line, "mixed %1023s %ld %llu", a, &n, &seed) == 3) {
+            int mx = line[0] == 'm'; cgsize_t *c, *o;
+            poly(next_elem, next_elem + n - 1, mx ? 0 : (int)n2, mx, seed, &c, &o);
+            ier = cg_poly_section_write(fn, B, Z, a, mx ? CGNS_ENUMV(MIXED) : CGNS_ENUMV(NGON_n), next_elem, next_elem + n - 1, 0, c, o, &S);
+            if (!ier) next_elem += n;
+            free(c); free(o);
+        } else if (sscanf(line, "ngon4 %1023s %ld %ld %llu", a, &n, &n2, &seed) == 4) {
+            /* an NGON_n section whose arrays are stored as 32-bit integers (a file from a 32-bit build): every later
+               write from cgsize_t memory converts ("handle different data_type in files") */
+            cgsize_t *c, *o;
+            poly(next_elem, next_elem + n - 1, (int)n2, 0, seed, &c, &o);
+            ier = cg_section_general_write(fn, B, Z, a, CGNS_ENUMV(NGON_n), CGNS_ENUMV(Integer), next_elem, next_elem + n - 1, n * n2, 0, &S);
+            if (!ier) ier = cg_section_initialize(fn, B, Z, S);
+            if (!ier) ier = cg_poly_elements_general_write(fn, B, Z, S, next_elem, next_elem + n - 1, cgi_datatype_of_size(), c, o);
+            if (!ier) next_elem += n;
+            free(c); free(o);
+        } else if (sscanf(line, "elems %1023s %ld %llu", a, &n, &seed) == 3) {
+            cgsize_t *c, *o;
+            poly(next_elem, next_elem + n - 1, 4, 0, seed, &c, &o);
+            ier = cg_section_write(fn, B, Z, a, CGNS_ENUMV(TETRA_4), next_elem, next_elem + n - 1, 0, c, &S);
+            if (!ier) next_elem += n;
+            free(c); free(o);
+        } else if (sscanf(line, "secpart %1023s %ld", a, &n) == 2) {
+            ier = cg_section_partial_write(fn, B, Z, a, CGNS_ENUMV(TETRA_4), next_elem, next_elem + n - 1, 0, &S);
+            if (!ier) next_elem += n;
+        } else if (sscanf(line, "polypart %ld %ld %ld %1023s %llu", &n, &n2, &n3, a, &seed) == 5 ||
+                   sscanf(line, "mixpart %ld %ld %ld %1023s %llu", &n, &n2, &n3, a, &seed) == 5) {
+            cgsize_t *c, *o;
+            poly(n2, n3, atoi(a), line[0] == 'm', seed, &c, &o);
+            ier = cg_poly_elements_partial_write(fn, B, Z, (int)n, n2, n3, c, o);
+            free(c); free(o);
+        } else if (sscanf(line, "elempart %ld %ld %ld %llu", &n, &n2, &n3, &seed) == 4) {
+            cgsize_t *c, *o;
+            poly(n2, n3, 4, 0, seed, &c, &o);
+            ier = cg_elements_partial_write(fn, B, Z, (int)n, n2, n3, c);
+            free(c); free(o);
+        } else if (sscanf(line, "parentpart %ld %ld %ld %llu", &n, &n2, &n3, &seed) == 4) {
+            cgsize_t *c, *o;
+            poly(n2, n3, 4, 0, seed, &c, &o);         /* 4 values per element: two parents, two parent faces */
+            ier = cg_parent_data_partial_write(fn, B, Z, (int)n, n2, n3, c);
+            free(c); free(o);
+        } else if (sscanf(line, "coordpart %1023s %ld %ld %llu", a, &n, &n2, &seed) == 4 ||
+                   sscanf(line, "fieldpart %1023s %ld %ld %llu", a, &n, &n2, &seed) == 4) {
+            size_t nb; int C; cgsize_t lo[3], hi[3]; void *v = gen("R8", (long)zn * zn * zn, seed, &nb);
+            lo[0] = n; lo[1] = 1; lo[2] = 1; hi[0] = n2; hi[1] = zn; hi[2] = zn;
+            if (line[0] == 'c') ier = cg_coord_partial_write(fn, B, Z, CGNS_ENUMV(RealDouble), a, lo, hi, v, &C);
+            else ier = cg_field_partial_write(fn, B, Z, S, CGNS_ENUMV(RealDouble), a, lo, hi, v, &C);
+            free(v);
+        } else if (sscanf(line, "bbox %llu", &seed) == 1) {
+            double bb[6]; int i; for (i = 0; i < 6; i++) bb[i] = (double)((seed + i * 3) % 100) / 4.0;
+            ier = cg_grid_bounding_box_write(fn, B, Z, 1, CGNS_ENUMV(RealDouble), bb);
+        } else if (sscanf(line, "getcoord %1023s", a) == 1 || sscanf(line, "getfield %1023s", a) == 1) {
+            cgsize_t lo[3] = {1, 1, 1}, hi[3]; double *v = (double *)malloc(sizeof(double) * (size_t)zn * zn * zn + 8);
+            hi[0] = hi[1] = hi[2] = zn;
+            if (line[3] == 'c') ier = cg_coord_read(fn, B, Z, a, CGNS_ENUMV(RealDouble), lo, hi, v);
+            else ier = cg_field_read(fn, B, Z, S, a, CGNS_ENUMV(RealDouble), lo, hi, v);
+            free(v);
+        } else if (sscanf(line, "getelems %ld", &n) == 1) {
+            cgsize_t sz = 0;
+            ier = cg_ElementDataSize(fn, B, Z, (int)n, &sz);
+            if (!ier) {
+                char nm[64]; CGNS_ENUMT(ElementType_t) et; cgsize_t st, en; int nb_, pf;
+                cgsize_t *c = (cgsize_t *)malloc(sizeof(cgsize_t) * (size_t)(sz + 1)), *o;
+                ier = cg_section_read(fn, B, Z, (int)n, nm, &et, &st, &en, &nb_, &pf);
+                o = (cgsize_t *)malloc(sizeof(cgsize_t) * (size_t)(en - st + 3));
+                if (!ier) ier = (et == CGNS_ENUMV(NGON_n) || et == CGNS_ENUMV(NFACE_n) || et == CGNS_ENUMV(MIXED))
+                                ? cg_poly_elements_read(fn, B, Z, (int)n, c, o, NULL) : cg_elements_read(fn, B, Z, (int)n, c, NULL);
+                free(c); free(o);
+            }
+        } else if (sscanf(line, "saveas %1023s %1023s", a, b) == 2)
+            ier = cg_save_as(fn, a, !strcmp(b, "hdf5") ? CG_FILE_HDF5 : CG_FILE_ADF, 0);
         else continue;
         printf("s %d\n", ier);
         fflush(stdout);
